@@ -155,6 +155,18 @@ CHECKS = {
               "deletion-marker file must be refused on IH5 without effect."),
         technique="TLA+ value-preservation in the container reference + trace validation of embedded bytes and file metadata over seeded continuations",
         design="4/C17"),
+    "C12": dict(
+        text=("SchemaCodec.tla defines class shapes over a field-type grammar (10 primitive kinds; Optional, default, List, Set, Union, "
+              "nested) with own/inherited/overridden constant fields, abstract instances, Enc/Dec and the laws RoundTrip, stability, "
+              "constants always dumped / ignored on load, None-as-missing; TLC checks the laws for every (shape, instance) and exports "
+              "them; each is built as a real MetadataSchema subclass with values from boundary pools and JSON/bytes/YAML round trips, "
+              "key structure and constant handling are compared with the specification, also for instances derived from an already "
+              "serialised one; installed schema plugins are round-tripped with hand-written valid instances. The model decides the "
+              "structure; number/YAML formatting fidelity is decided only for the values in the pools."),
+        technique="TLA+ codec laws over an enumerated type grammar (TLC) + every enumerated (shape, instance) concretised on real schema classes",
+        design="4/C12, 6",
+        note=("TLC and the specification; the concretisation pools of harness/c12.py (a value outside the pools is not covered); numpy-2 "
+              "aliases in the harness process; Unions of two string-encoded kinds are outside the grammar")),
 }
 
 NOT_YET = "check not built yet (work in progress)"
